@@ -44,14 +44,11 @@ def lp_snapshot(model):
                 co[str(t)] = float(a)
         out["constraints"][c.name] = dict(coefs=co, const=k, lb=c.lb, ub=c.ub)
     oc = {}
-    ok = 0.0
-    for t, a in s.objective.expression.as_coefficients_dict().items():
-        if t == 1:
-            ok = float(a)
-        elif hasattr(t, "name"):
-            oc[t.name] = float(a)
-        else:
-            oc[str(t)] = float(a)
+    ok = float(getattr(s, "_objective_offset", 0) or 0)
+    # the objective row as the solver holds it (the interface's .expression may be a stale cache)
+    for v, a in s.objective.get_linear_coefficients(list(s.variables)).items():
+        if a != 0:
+            oc[v.name] = float(a)
     out["objective"] = dict(coefs=oc, const=ok, direction=s.objective.direction)
     out["order"] = dict(variables=[v.name for v in s.variables], constraints=[c.name for c in s.constraints])
     return out
